@@ -28,7 +28,10 @@ PLAIN = ['A', 'B', 'Dog', 'Owner', 'x', 'x1', 'Name', 'Id', 'ID', 'n_2', '_t', '
          'C', 'c1', 'Key', 'val', 'Kind', 'Type', 'class', 'None', 'self', 'q', 'W', 'E1', 'long_identifier_name_0123456789']
 CARDWORDS = ['M', 'MC', 'm', 'mc', 'Mc']
 
-STR_PIECES = ["'", "''", "'''", "--", "-- x", "\n", "\n\n", "\x00", "é", "日本", "\U0001F600", "\\", '"',
+# text that is NOT in Unicode normal form C (combining sequences, compatibility-equivalent signs, decomposed Hangul jamo, NFD
+# forms of precomposed letters): a loader that normalises its input alters it
+NON_NFC = ['e\u0301', 'A\u030a', '\u212b', '\u2126', '\u212a', '\u1112\u1161\u11ab', 'o\u0308\u0323', '\u0041\u0300\u0301', 'n\u0303a']
+STR_PIECES = NON_NFC + ["'", "''", "'''", "--", "-- x", "\n", "\n\n", "\x00", "é", "日本", "\U0001F600", "\\", '"',
               "a", "b c", " ", "\t", ");", "INSERT INTO", ",", "%s", "%d", "(", "-", "'--'", "\n--\n'", "ß", "0", "1.5",
               "\"x\"", "\\'", "''\n''", "\x7f", "ı", " ", "\r", "\r\n", "a\rb", "\r'"]
 INT_VALUES = [0, 1, -1, 7, -42, 255, 256, 2 ** 31 - 1, 2 ** 31, -2 ** 31, 2 ** 53 - 1, 2 ** 53, 2 ** 53 + 1, -(2 ** 53 + 1), 2 ** 63 - 1,
